@@ -235,18 +235,50 @@ def observe_ops(m, env):
         return (str(x), x.smiles_atoms_order, x.sssr, x.rings_count, x.atoms_order, x.bonds_count, x.connected_components,
                 x.linear_hash_set(1, 3), [a.ring_sizes for _, a in x.atoms()])
 
-    def edit(name, action):
-        """fill the cache, edit, and compare what the edited object answers with what a fresh copy of it answers"""
+    def edit(name, action, restores=False):
+        """fill the cache, edit, and compare what the edited object answers with what a fresh copy of it answers (and, for an
+        edit that is rolled back, with what it answered before)"""
         def run():
             c = m.copy()
-            snapshot(c)
+            before = snapshot(c)
             action(c)
             mine = snapshot(c)
             fresh = snapshot(c.copy())
             if ser(mine) != ser(fresh):
                 stale.append({'observable': 'edit:' + name, 'first': ser(fresh)[:600], 'other': ser(mine)[:600]})
+            elif restores and ser(mine) != ser(before):
+                stale.append({'observable': 'edit:' + name + ' (state before the rolled back block)', 'first': ser(before)[:600], 'other': ser(mine)[:600]})
+            if restores:          # more consumers of the ring / component cache
+                more = lambda x: (x.aromatic_rings, [str(p) for p in x.split()], x.atoms_rings_sizes, x.connected_components_count,
+                                  [list(itertools.islice(q.get_mapping(x), 40)) for _, q in env['queries'][:4] if q is not None])
+                a, b = ser(more(c)), ser(more(c.copy()))
+                if a != b:
+                    stale.append({'observable': 'edit:' + name + ' (aromatic_rings / split / match lists)', 'first': b[:600], 'other': a[:600]})
+                th = lambda x: (x.thiele(), str(x))
+                untouched = c.copy()          # taken BEFORE thiele() changes c in place
+                a, b = ser(th(c)), ser(th(untouched))
+                if a != b:
+                    stale.append({'observable': 'edit:' + name + ' (thiele afterwards)', 'first': b[:600], 'other': a[:600]})
             return mine
         o['edit:' + name] = safe(run)
+
+    class Rejected(Exception):
+        pass
+
+    def transaction(change, reads, fail):
+        """`with mol:` block: a skeleton change, ring / component properties read on the edited structure inside the block, then
+        (fail) an exception that rolls the transaction back"""
+        def action(c):
+            try:
+                with c:
+                    change(c)
+                    for r in reads:
+                        getattr(c, r)
+                    if fail:
+                        raise Rejected()
+            except Rejected:
+                pass
+        return action
     stale = []
     if ks:
         edit('remap+100', lambda c: c.remap({k: k + 100 for k in ks}))
@@ -259,6 +291,24 @@ def observe_ops(m, env):
         if n > 1 and m._bonds[ks[-1]]:
             edit('delete_bond', lambda c: c.delete_bond(ks[-1], next(iter(c._bonds[ks[-1]]))))
         edit('union in place', lambda c: c.union(env['fragments'][0][1], remap=True, copy=False))
+        # transactions: rolled back after the edited structure was looked at, and committed
+        ring_reads = ('sssr', 'rings_count', 'atoms_rings_sizes', 'not_special_connectivity')
+        comp_reads = ('connected_components', 'connected_components_count')
+        small = n <= 26          # the transaction family runs on the smaller inputs (time)
+        rb = next(((r[0], r[-1]) for r in m.sssr), None) if small else None          # a ring bond (closure of the first SSSR ring)
+        lb = next(((a, b) for a in reversed(ks) for b in m._bonds[a]), None) if small else None
+        if rb is not None:
+            edit('failed transaction: ring bond deleted, rings read', transaction(lambda c: c.delete_bond(*rb), ring_reads, True), restores=True)
+            edit('failed transaction: ring bond deleted, components read', transaction(lambda c: c.delete_bond(*rb), comp_reads, True), restores=True)
+            edit('committed transaction: ring bond deleted, rings read', transaction(lambda c: c.delete_bond(*rb), ring_reads + comp_reads, False))
+        if lb is not None:
+            edit('failed transaction: bond deleted, components and rings read', transaction(lambda c: c.delete_bond(*lb), comp_reads + ring_reads, True), restores=True)
+        if far is not None and small:
+            edit('failed transaction: bond added, rings read', transaction(lambda c: c.add_bond(ks[0], far, 1), ring_reads + comp_reads, True), restores=True)
+            edit('committed transaction: bond added, rings read', transaction(lambda c: c.add_bond(ks[0], far, 1), ring_reads, False))
+        if small:
+            edit('failed transaction: atom deleted, everything read', transaction(lambda c: c.delete_atom(ks[-1]), ring_reads + comp_reads, True), restores=True)
+            edit('failed transaction: nothing read', transaction(lambda c: c.delete_atom(ks[-1]), (), True), restores=True)
     # which attribute is read FIRST on a fresh object must not matter (cross-stored cache entries)
     def first_read():
         def light(x):
@@ -1024,6 +1074,10 @@ Definition start_ok (ws gs : list (Z * Z)) (enum : list Z) (start : Z) : bool :=
 '''
 
 
+class _Abort(Exception):
+    pass
+
+
 def memo_cases(ck, rng):
     """histories of reads / flushes / edits on REAL molecules against the memo model: derive k s is the value a fresh,
     never cached copy returns; the model must return the same list of values for the same history"""
@@ -1044,6 +1098,7 @@ def memo_cases(ck, rng):
             # states: 0 = as parsed, then one more per edit; the table `derive` lists, per state, the uncached value of every key
             states = [[value(m.copy(), k) for k in props]]
             ops, observed = [], []
+            cur = 0
             for _ in range(rng.randint(4, 9)):
                 r = rng.random()
                 if r < 0.6:
@@ -1059,11 +1114,43 @@ def memo_cases(ck, rng):
                 elif r < 0.75:
                     ops.append('Flush')
                     m.flush_cache()
-                else:
+                elif r < 0.87:
                     n = m.add_atom('C')
                     m.add_bond(n, next(iter(m._atoms)), 1)
                     states.append([value(m.copy(), k) for k in props])
-                    ops.append('Mutate S')
+                    cur = len(states) - 1
+                    ops.append(f'Mutate (fun _ => {cur}%nat)')
+                else:
+                    # a `with mol:` block: skeleton change, ring / component properties read on the edited structure, then either an
+                    # exception (rollback: the state is the one before the block again) or a commit
+                    fail = rng.random() < 0.7
+                    ringb = next(((r_[0], r_[-1]) for r_ in m.sssr), None)
+                    anyb = next(((a, b) for a in reversed(list(m._atoms)) for b in m._bonds[a]), None)
+                    bond = ringb if ringb is not None and rng.random() < 0.6 else anyb
+                    inside = [k for k in ('sssr', 'rings_count', 'connected_components_count', 'bonds_count', 'atoms_count') if rng.random() < 0.6] or ['sssr']
+                    try:
+                        with m:
+                            if bond is not None:
+                                m.delete_bond(*bond)
+                            else:
+                                m.add_bond(m.add_atom('C'), next(iter(m._atoms)), 1)
+                            states.append([value(m.copy(), k) if k in ('sssr', 'rings_count', 'connected_components_count', 'bonds_count', 'atoms_count') else -7
+                                           for k in props])
+                            ops.append(f'Mutate (fun _ => {len(states) - 1}%nat)')
+                            for k in inside:
+                                ops.append(f'Read {props.index(k)}%nat')
+                                observed.append(value(m, k))
+                            if fail:
+                                raise _Abort()
+                    except _Abort:
+                        pass
+                    if fail:
+                        ops.append(f'Mutate (fun _ => {cur}%nat)')          # rolled back
+                    else:
+                        states.append([value(m.copy(), k) for k in props])
+                        cur = len(states) - 1
+                        ops.append(f'Mutate (fun _ => {cur}%nat)')          # committed: labels and hydrogens recalculated
+                    ck.count('memo histories: transactions ' + ('rolled back' if fail else 'committed'))
             tab = lst([lst(row, zraw) for row in states])
             cases.append(f'memo_ok {tab} [{"; ".join(ops)}] {lst(observed, zraw)}')
             meta.append(('memo', smi, ops, observed))
